@@ -18,6 +18,7 @@
     * `idcstar_line1_passes_iff`                 line 1 lets exactly the non-Zero / unidentifiable conditions through
     * `idcstar_zero_of_inconsistent`             line 3: 'inconsistent' joint event ⇒ Zero
     * `idcstar_fuel_mono`                        more fuel never changes an answer that was reached
+    * `idcstar_division_modelled`                ID* never returns a Fraction: the modelled division covers every case
     * vocabulary (C06 part) `idcstar_vocab`      every leaf of a returned estimand is a single-world term
 
   -- OPEN (stated in full, NOT proved; the first is FALSE on the current tree — see the C08 entries of known_findings.jsonl):
@@ -94,6 +95,12 @@ theorem idcstar_fuel_mono (fuel k : Nat) (outcomes conditions : Event) (x : Expr
   induction k with
   | zero => exact h
   | succ k ih => exact idcStarFuel_mono ordf dordf kordf G (fuel + k) outcomes conditions x ih
+
+/-- the final division is fully modelled: an ID* estimand never contains a `Fraction`, so `Expression.conditional` never takes
+the one branch of `__truediv__` (`x / Fraction`) that the model leaves out -/
+theorem idcstar_division_modelled (ev : Event) (e : Expr) (rs : List Name) (h : idStar ordf dordf G ev = .ok e) :
+    conditional e rs ≠ .error (.internal "unmodelled: division by a Fraction") :=
+  conditional_modelled e rs (idStarFuel_noFrac ordf dordf G _ ev e h)
 
 /-! ## 3. vocabulary (C06, IDC* part) -/
 
